@@ -580,11 +580,11 @@ theorem bind_ok {α β : Type} {r : PR α} {f : α → PR β} {b : β} (h : r.bi
 end Change
 open Change
 
-theorem resolveTransition_spec (hE : EnterSpec) (hR : EnterRootEq) (cfg : NCfg) (hwf : cfg.states.WF = true)
+private theorem resolveTransition_aux (hE : EnterSpec) (hR : EnterRootEq) (cfg : NCfg) (hwf : cfg.states.WF = true)
     (sc : Scope) (hsc : cfg.root.walkTo sc.pre = some sc)
     (conf : Forest) (hc : ConfOK cfg.states conf = true) (hlen : conf.len = 1)
     (dest : SPath) (r : Resolved) (h : resolveTransition cfg.root sc conf dest = .ok r) :
-    ∃ A : SPath,
+    (∃ A : SPath,
       (A = [] ∨ A ∈ conf.nodes) ∧
       (pathsOf r.exits).Nodup ∧
       (∀ p ∈ pathsOf r.exits, p ∈ conf.nodes ∧ properPrefix A p = true) ∧
@@ -594,29 +594,34 @@ theorem resolveTransition_spec (hE : EnterSpec) (hR : EnterRootEq) (cfg : NCfg) 
       (∀ p ∈ pathsOf r.enters, p ∈ conf.nodes → p ∈ pathsOf r.exits) ∧
       parentsFirst A [] (pathsOf r.enters) = true ∧
       ConfOK cfg.states r.tree = true ∧ r.tree.len = 1 ∧
-      (∀ p, p ∈ r.tree.nodes ↔ (p ∈ conf.nodes ∧ p ∉ pathsOf r.exits) ∨ p ∈ pathsOf r.enters) := by
+      (∀ p, p ∈ r.tree.nodes ↔ (p ∈ conf.nodes ∧ p ∉ pathsOf r.exits) ∨ p ∈ pathsOf r.enters)) ∧
+    r.exitNames = pathsOf r.exits := by
   have hdest : dest ≠ [] := by
     rintro rfl
     simp [resolveTransition, getState_nil] at h
   simp only [resolveTransition] at h
   split at h
   · cases h
-  · have hdst : (if (activePrefix conf dest).2.isEmpty = true then
-        (activePrefix conf dest).1.drop ((activePrefix conf dest).1.length - 1) else (activePrefix conf dest).2) ≠ [] := by
+  · split at h
+    · cases h
+    · cases h
+    rename_i sT _
+    have hdst : (if (activePrefix sT dest).2.isEmpty = true then
+        (activePrefix sT dest).1.drop ((activePrefix sT dest).1.length - 1) else (activePrefix sT dest).2) ≠ [] := by
       split
       · rename_i he
-        have h1 := activePrefix_fst_ne_nil (f := conf) hdest (by simpa using he)
+        have h1 := activePrefix_fst_ne_nil (f := sT) hdest (by simpa using he)
         intro e
         have h2 := congrArg List.length e
-        have h3 : 0 < (activePrefix conf dest).1.length := List.length_pos_iff.mpr h1
+        have h3 : 0 < (activePrefix sT dest).1.length := List.length_pos_iff.mpr h1
         simp at h2; omega
       · rename_i he
         simpa using he
-    generalize (if (activePrefix conf dest).2.isEmpty = true then
-        (activePrefix conf dest).1.drop ((activePrefix conf dest).1.length - 1) else (activePrefix conf dest).2) = dst
+    generalize (if (activePrefix sT dest).2.isEmpty = true then
+        (activePrefix sT dest).1.drop ((activePrefix sT dest).1.length - 1) else (activePrefix sT dest).2) = dst
         at h hdst
-    generalize (if (activePrefix conf dest).2.isEmpty = true then
-        (activePrefix conf dest).1.dropLast else (activePrefix conf dest).1) = rt at h
+    generalize (if (activePrefix sT dest).2.isEmpty = true then
+        (activePrefix sT dest).1.dropLast else (activePrefix sT dest).1) = rt at h
     obtain ⟨d0, dr, rfl⟩ := List.exists_cons_of_ne_nil hdst
     simp only [List.headD_cons] at h
     split at h
@@ -699,7 +704,7 @@ theorem resolveTransition_spec (hE : EnterSpec) (hR : EnterRootEq) (cfg : NCfg) 
         obtain ⟨c1, c2, c3, c4, c5, c6⟩ := change_core (nar := st.len > 1)
           (g := fun st_1 => (if st.len > 1 then st_1 else Forest.nil).set d0 v) hcw hs hbw hbase rfl hordnd hpw hmem hNmem
         rw [hX]
-        refine ⟨sc.pre ++ rt, ?_, c1, c2, c3, c4, hNnd, c5, hNpf, ?_, ?_, c6⟩
+        refine ⟨⟨sc.pre ++ rt, ?_, c1, c2, c3, c4, hNnd, c5, hNpf, ?_, ?_, c6⟩, ?_⟩
         · by_cases hAe : sc.pre ++ rt = []
           · exact Or.inl hAe
           · exact Or.inr (Forest.mem_nodes_of_sub? hAe (by simp [hs]))
@@ -727,5 +732,31 @@ theorem resolveTransition_spec (hE : EnterSpec) (hR : EnterRootEq) (cfg : NCfg) 
             have hn : ¬ conf.len > 1 := by omega
             simp [Forest.modifyAt, hn, Forest.set, Forest.len]
           · rw [Forest.len_modifyAt hAe]; exact hlen
+        · simp only [List.append_assoc]
+
+theorem resolveTransition_spec (hE : EnterSpec) (hR : EnterRootEq) (cfg : NCfg) (hwf : cfg.states.WF = true)
+    (sc : Scope) (hsc : cfg.root.walkTo sc.pre = some sc)
+    (conf : Forest) (hc : ConfOK cfg.states conf = true) (hlen : conf.len = 1)
+    (dest : SPath) (r : Resolved) (h : resolveTransition cfg.root sc conf dest = .ok r) :
+    ∃ A : SPath,
+      (A = [] ∨ A ∈ conf.nodes) ∧
+      (pathsOf r.exits).Nodup ∧
+      (∀ p ∈ pathsOf r.exits, p ∈ conf.nodes ∧ properPrefix A p = true) ∧
+      (pathsOf r.exits).Pairwise (fun a b => properPrefix a b = false) ∧
+      (∀ p ∈ pathsOf r.exits, ∀ q ∈ conf.nodes, properPrefix p q = true → q ∈ pathsOf r.exits) ∧
+      (pathsOf r.enters).Nodup ∧
+      (∀ p ∈ pathsOf r.enters, p ∈ conf.nodes → p ∈ pathsOf r.exits) ∧
+      parentsFirst A [] (pathsOf r.enters) = true ∧
+      ConfOK cfg.states r.tree = true ∧ r.tree.len = 1 ∧
+      (∀ p, p ∈ r.tree.nodes ↔ (p ∈ conf.nodes ∧ p ∉ pathsOf r.exits) ∨ p ∈ pathsOf r.enters) :=
+  (resolveTransition_aux hE hR cfg hwf sc hsc conf hc hlen dest r h).1
+
+/-- what goes into `event_data.exited_states` is exactly the list of states that are exited -/
+theorem resolveTransition_exitNames (hE : EnterSpec) (hR : EnterRootEq) (cfg : NCfg) (hwf : cfg.states.WF = true)
+    (sc : Scope) (hsc : cfg.root.walkTo sc.pre = some sc)
+    (conf : Forest) (hc : ConfOK cfg.states conf = true) (hlen : conf.len = 1)
+    (dest : SPath) (r : Resolved) (h : resolveTransition cfg.root sc conf dest = .ok r) :
+    r.exitNames = pathsOf r.exits :=
+  (resolveTransition_aux hE hR cfg hwf sc hsc conf hc hlen dest r h).2
 
 end TM
